@@ -44,6 +44,8 @@ Proof.
     + apply node_of_inj in Hx; subst x. split; [exact Hc|now right].
     + exact (cv_items _ C x Hx).
   - exact (cv_refs _ C).
+  - intros c Hc'. apply g_add_edge_nodes in Hc' as [Hc'|[Hc'|Hc']]; try (destruct i; discriminate);
+      try (destruct jc; discriminate). exact (cv_obj _ C c Hc').
 Qed.
 
 (** * Entering a formula *)
@@ -62,6 +64,7 @@ Proof.
     + exact (cv_edge _ C).
     + intros x Hx. destruct (cv_items _ C x Hx) as (A & [B|B]); split; auto.
     + eapply rs_ok_weaken; [|exact (cv_refs _ C)]. lia.
+    + exact (cv_obj _ C).
   - intros x [<-|Hx] Hc; simpl.
     + unfold is_cached in Hc. simpl in Hc. rewrite El in Hc. now rewrite Hc in Em.
     + now apply SO.
@@ -106,11 +109,13 @@ Proof.
               end).
   assert (H2 : s_refstack st2 = s_refstack st).
   { unfold st2. destruct (nearest_cached st1 rest); destruct (is_cached st (fst i)); reflexivity. }
-  destruct (if is_cached st (fst i) then Some i else nearest_cached st1 rest) as [t|].
-  - pose proof (pop_refs_keep_other st2 (List.length rest) t (s_refstack st2) p) as K.
-    destruct (pop_refs st2 (List.length rest) t (s_refstack st2)) as [st3 rs]. simpl in *.
+  destruct (is_cached st (fst i)).
+  - pose proof (pop_refs_keep_other st2 (List.length rest) i (s_refstack st2) p) as K.
+    destruct (pop_refs st2 (List.length rest) i (s_refstack st2)) as [st3 rs]. simpl in *.
     apply K; [now rewrite H2|assumption].
-  - simpl. rewrite H2. now apply drop_refs_keep_other.
+  - destruct rest as [|x rest']; cbn [upd_refstack s_refstack]; rewrite H2.
+    + now apply drop_refs_keep_other.
+    + now apply move_refs_keep_other.
 Qed.
 
 Lemma rollback_frame_refstack_keep st i rest ln p :
@@ -167,6 +172,8 @@ Proof.
       * destruct B as [B|B]; [left; unfold has; now rewrite FD|].
         rewrite Es in B. destruct B as [<-|B]; [contradiction|]. right. now rewrite FK.
     + rewrite FK. apply RS. pose proof (cv_refs _ C) as R. now rewrite Es in R.
+    + intros c Hc'. apply RN in Hc' as (Hc' & _). rewrite (is_cached_cells st _ _ Hcells).
+      exact (cv_obj _ C c Hc').
   - intros x Hx Hc. rewrite FK in Hx. rewrite FD.
     apply SO; [rewrite Es; now right|].
     now rewrite <- (is_cached_cells st _ _ Hcells).
@@ -205,8 +212,8 @@ Proof.
   assert (Es3 : s_stack st3 = i :: rest) by exact Es.
   assert (Hc3 : is_cached st3 (fst i) = true) by exact Hc.
   assert (Hnc3 : nearest_cached st3 rest = nearest_cached st2 rest) by (apply nearest_cached_cells; reflexivity).
-  destruct (pop_frame_graph st3 i rest Es3) as (PE & PN & PR1 & PR2 & PR3 & PS & _).
-  unfold pop_src, pop_target in *. rewrite Hc3, Hnc3 in *.
+  destruct (pop_frame_graph st3 i rest Es3) as (PE & PN & PR1 & PR2 & PR3 & PS & _ & _).
+  unfold pop_src, pop_target in *. rewrite Hc3 in *. rewrite Hnc3 in *.
   destruct (pop_frame_fields st3) as (FS & FD & FK & _).
   rewrite Es3 in FK. simpl in FK.
   set (st' := pop_frame st3) in *.
@@ -271,6 +278,10 @@ Proof.
            split; [exact Hcj|now right].
         -- apply node_of_inj in Hx; subst x. split; [exact Hc|now left].
       * rewrite FK. now apply PS.
+      * intros c Hc'. rewrite (is_cached_cells st2 _ _ Hcells).
+        apply PN in Hc' as [Hc'|[(jc & En & [Hc'|Hc'])|(En & _ & Hc')]];
+          try (destruct i; discriminate); try (destruct jc; discriminate).
+        exact (cv_obj _ C c Hc').
     + intros x Hx Hcx. rewrite FK in Hx. rewrite Hdata.
       assert (x <> i) by (intros ->; contradiction).
       rewrite lookup_set_other by assumption.
@@ -279,19 +290,20 @@ Proof.
 Qed.
 
 Lemma cov_pending_after_uncached st2 st' nc i rest me d x :
-  s_stack st2 = i :: rest ->
+  s_stack st2 = i :: rest -> d = List.length rest - 1 ->
   (forall e, In e (s_edges st2) -> In e (s_edges st')) ->
   (forall e, In e (s_redges st2) -> In e (s_redges st')) ->
   (forall m, has st2 m -> has st' m) ->
-  (forall jc r, nc = Some jc -> In (List.length rest, r) (s_refstack st2) -> In (r, jc) (s_redges st')) ->
+  (forall jc r, nc = Some jc -> In (List.length rest, r) (s_refstack st2) ->
+                In (List.length rest - 1, r) (s_refstack st')) ->
   (forall jc, nc = Some jc -> In (NObj (fst i), node_of jc) (s_edges st')) ->
   cov_pending st2 nc (fst i) (List.length rest) x -> cov_pending st' nc me d x.
 Proof.
-  intros Es HE HR HH HP HO. unfold cov_pending. destruct nc as [jc|]; [|auto].
+  intros Es Hd HE HR HH HP HO. unfold cov_pending. destruct nc as [jc|]; [|auto].
   destruct x as [m|c|r|c r]; simpl.
   - intros (A & B). split; [now apply HE|now apply HH].
   - intros A. now apply HE.
-  - intros [A|A]; left; [now apply HR|now apply (HP jc)].
+  - intros [A|A]; [left; now apply HR|right; subst d; now apply (HP jc)].
   - intros [A|A]; right; [subst c; now apply HO|now apply HE].
 Qed.
 
@@ -302,10 +314,11 @@ Lemma Good_pop_uncached st2 i rest :
   Good (pop_frame st2) /\ Grow st2 (pop_frame st2) /\
   (forall jc, nearest_cached st2 rest = Some jc ->
               In (NObj (fst i), node_of jc) (s_edges (pop_frame st2)) /\
-              forall r, In (List.length rest, r) (s_refstack st2) -> In (r, jc) (s_redges (pop_frame st2))).
+              forall r, In (List.length rest, r) (s_refstack st2) ->
+                        In (List.length rest - 1, r) (s_refstack (pop_frame st2))).
 Proof.
   intros (HI & C & SO) Es Hc HI'.
-  destruct (pop_frame_graph st2 i rest Es) as (PE & PN & PR1 & PR2 & PR3 & PS & _).
+  destruct (pop_frame_graph st2 i rest Es) as (PE & PN & PR1 & PR2 & PR3 & PS & _ & PM).
   unfold pop_src, pop_target in *. rewrite Hc in *.
   destruct (pop_frame_fields st2) as (FS & FD & FK & _).
   rewrite Es in FK. simpl in FK.
@@ -348,9 +361,16 @@ Proof.
            split; [exact Hcj|now right].
         -- discriminate.
       * rewrite FK. now apply PS.
+      * intros c Hc'. rewrite (is_cached_cells st2 _ _ Hcells).
+        apply PN in Hc' as [Hc'|[(jc & En & [Hc'|Hc'])|(En & Hf & _)]].
+        -- exact (cv_obj _ C c Hc').
+        -- inversion Hc'; subst. exact Hc.
+        -- destruct jc; discriminate.
+        -- discriminate.
     + intros x Hx Hcx. rewrite FK in Hx. rewrite FD.
       apply SO; [rewrite Es; now right|]. now rewrite <- (is_cached_cells st2 _ _ Hcells).
   - intros jc En. split.
     + apply PE. right. exists jc. split; [exact En|reflexivity].
-    + intros r Hr. apply PR3; [exact En|exact Hrs|exact Hr].
+    + intros r Hr. apply PM; [reflexivity| |exact Hrs|exact Hr].
+      intros ->. simpl in En. discriminate.
 Qed.
